@@ -240,7 +240,7 @@ func (it *iter) Next() bool {
 	if it.buf.key == "" && !it.buf.eof {
 		start = it.buf.next()
 	}
-	if it.back.key == "" && !it.buf.eof {
+	if it.back.key == "" && !it.back.eof {
 		start = it.back.next() || start
 	}
 	if start {
